@@ -450,14 +450,14 @@ static void history_case (vp::Ctx& c, bool with_global)
 }
 
 #define C18_HIST_RULE "histories of 1..200 operations (mostly <= 40) over two caller-owned state arrays (nrand48, erand48, re-seed), one Rand48 and one Rand32 object (init, nexti, nextb, nextf, nextf(a,b))"
-VP_RANDOM (history_arrays_objects, 300000, 10000000, C18_HIST_RULE "; initial and re-seeded 48-bit states: 0, 2^48-1, predecessors of states with all-zero / all-one top 31 bits or all 48 bits, small, words from {0,ffff,8000,7fff}, uniform; seeds 0, 1, ULONG_MAX, 2^32-1, 2^32.., 16/32/64-bit; bounds a,b from 0, small ints, +-max/4, huge, tiny, subnormal, nice, incl. a > b and a == b.  After EVERY step: value and state array equal the 48-bit LCG model and glibc's function run on a copy of the previous state (erand48: |difference| <= 2^-48 and in [0,1)); objects equal the model of init/next; nextf(a,b) inside [min,max] +- 2 eps max(|a|,|b|) and within 2 eps of a(1-f)+bf; whole history replayed once more must give identical outputs.  non-trivial = mixes >= 2 generator families and uses >= 1 boundary state")
+VP_RANDOM (history_arrays_objects, 1000000, 10000000, C18_HIST_RULE "; initial and re-seeded 48-bit states: 0, 2^48-1, predecessors of states with all-zero / all-one top 31 bits or all 48 bits, small, words from {0,ffff,8000,7fff}, uniform; seeds 0, 1, ULONG_MAX, 2^32-1, 2^32.., 16/32/64-bit; bounds a,b from 0, small ints, +-max/4, huge, tiny, subnormal, nice, incl. a > b and a == b.  After EVERY step: value and state array equal the 48-bit LCG model and glibc's function run on a copy of the previous state (erand48: |difference| <= 2^-48 and in [0,1)); objects equal the model of init/next; nextf(a,b) inside [min,max] +- 2 eps max(|a|,|b|) and within 2 eps of a(1-f)+bf; whole history replayed once more must give identical outputs.  non-trivial = mixes >= 2 generator families and uses >= 1 boundary state")
 {
     history_case (c, false);
 }
 VP_LABELS (history_arrays_objects, C18_LABELS)
 VP_REQUIRE_LABELS (history_arrays_objects, "boundary_state", "output_all_zero_bits", "output_all_one_bits", "mixes_two_or_more_families", "reseeded_mid_history", "range_a_gt_b", "range_a_eq_b", "range_huge")
 
-VP_RANDOM (history_global, 150000, 4000000, C18_HIST_RULE " PLUS the process-global srand48 / lrand48 / drand48 of Imath, compared step by step with the model (seed<<16 | 0x330e) and with glibc's ::srand48 / ::lrand48 / ::drand48; both global states are re-seeded at the top of the case and the case runs under a mutex; interleaved array/object operations must not disturb the global stream and vice versa.  non-trivial = mixes >= 2 generator families and uses >= 1 boundary state")
+VP_RANDOM (history_global, 400000, 4000000, C18_HIST_RULE " PLUS the process-global srand48 / lrand48 / drand48 of Imath, compared step by step with the model (seed<<16 | 0x330e) and with glibc's ::srand48 / ::lrand48 / ::drand48; both global states are re-seeded at the top of the case and the case runs under a mutex; interleaved array/object operations must not disturb the global stream and vice versa.  non-trivial = mixes >= 2 generator families and uses >= 1 boundary state")
 {
     history_case (c, true);
 }
@@ -493,7 +493,7 @@ VP_EXHAUSTIVE (single_step_states, 8192, 65536, "single nrand48 and erand48 step
 
 // ---------------------------------------------------------------------------
 // pure function of the seed
-VP_RANDOM (seed_determinism, 200000, 4000000, "two Rand48 and two Rand32 objects built from the same seed (constructor vs default-construct + init) driven by the same random call sequence of length <= 64 produce identical values; a third object initialised mid-way with the same seed reproduces the sequence from the start; default constructor == seed 0; non-trivial = always")
+VP_RANDOM (seed_determinism, 500000, 5000000, "two Rand48 and two Rand32 objects built from the same seed (constructor vs default-construct + init) driven by the same random call sequence of length <= 64 produce identical values; a third object initialised mid-way with the same seed reproduces the sequence from the start; default constructor == seed 0; non-trivial = always")
 {
     vp::Src&      s    = c.s;
     unsigned long seed = gen_seed (s);
@@ -576,15 +576,35 @@ static inline void c18_measure (const char* what, double v)
     }
 }
 
-template <class V, class T, int N, class R> static void sampler_case (vp::Ctx& c, const char* vn, const char* rn, unsigned long seed, int skip, int draws)
+// The samplers are rejection loops: with a broken generator they need not terminate.  They are therefore driven
+// through a forwarding wrapper that counts nextf(a,b) calls and fails the case after 20000 of them (a healthy
+// generator needs about N / (volume ratio) <= 13 calls per sample on average, and 4 * (N+2) samples are drawn).
+template <class R> struct GuardedRand
 {
-    R r (seed);
+    R        r;
+    vp::Ctx* c;
+    long     calls;
+    GuardedRand (unsigned long seed, vp::Ctx* cc) : r (seed), c (cc), calls (0) {}
+    template <class A> auto nextf (A a, A b) -> decltype (r.nextf (a, b))
+    {
+        if (++calls > 20000) c->do_fail ("sampler-does-not-terminate", "a sphere / gauss sampler drew more than 20000 numbers without accepting a sample");
+        return r.nextf (a, b);
+    }
+    void nexti () { r.nexti (); }
+};
+
+template <class V, class T, int N, class R0> static void sampler_case (vp::Ctx& c, const char* vn, const char* rn, unsigned long seed, int skip, int draws)
+{
+    typedef GuardedRand<R0> R;
+    R r (seed, &c);
     for (int i = 0; i < skip; ++i)
         r.nexti ();
     const quad eps = FInfo<T>::eps ();
     for (int d = 0; d < draws; ++d)
     {
         R    copy = r;
+        r.calls   = 0;
+        copy.calls = 0;
         V    v    = IM::solidSphereRand<V> (r);
         quad n2   = 0;
         for (int i = 0; i < N; ++i)
@@ -621,7 +641,7 @@ template <class V, class T, int N, class R> static void sampler_case (vp::Ctx& c
     }
 }
 
-VP_RANDOM (samplers, 150000, 3000000, "solidSphereRand / hollowSphereRand / gaussSphereRand <V2|V3|V4 x float|double> and gaussRand with Rand32 or Rand48 from a generated seed (0, 1, ULONG_MAX, 2^32.., random) after 0..1000 skipped draws, 4 consecutive draws each: components finite; solid: exact squared length <= 1 + (N+1) eps; hollow: | |v| - 1 | <= 4 eps; gauss: finite and |g| < 16; identical generator states give identical samples; non-trivial = always")
+VP_RANDOM (samplers, 500000, 5000000, "solidSphereRand / hollowSphereRand / gaussSphereRand <V2|V3|V4 x float|double> and gaussRand with Rand32 or Rand48 from a generated seed (0, 1, ULONG_MAX, 2^32.., random) after 0..1000 skipped draws, 4 consecutive draws each: components finite; solid: exact squared length <= 1 + (N+1) eps; hollow: | |v| - 1 | <= 4 eps; gauss: finite and |g| < 16; identical generator states give identical samples; every sampler terminates within 20000 draws; non-trivial = always")
 {
     vp::Src&      s    = c.s;
     unsigned long seed = gen_seed (s);
